@@ -1,12 +1,21 @@
 #!/bin/sh
-# for every seeded change: apply to /repo, run the check of the property it breaks (quick), undo; print the verdict
-cd /verif
+# For every seeded change: apply it to a scratch worktree of /repo (under /tmp; /repo itself and the evidence files are
+# not touched), run the check(s) of the property it breaks against that worktree, print the verdict, remove the worktree.
+#   usage: tools_seedmatrix.sh [seed-id] [tier] [extra property ids to run as well]
+cd "$(dirname "$0")"
+V=$(pwd)
+only=$1; tier=${2:-quick}; shift; shift
+WT=/tmp/seedwt.$$
+trap 'git -C /repo worktree remove --force $WT 2>/dev/null; git -C /repo worktree prune; rm -rf /tmp/seedout.$$' EXIT
+git -C /repo worktree add --detach $WT HEAD >/dev/null 2>&1 || exit 2
 for d in seeded/C*-*; do
   id=$(basename $d); prop=$(echo $id | cut -d- -f1)
-  [ -n "$1" ] && [ "$1" != "$id" ] && continue
-  git -C /repo apply /verif/$d/patch.diff 2>/dev/null || { echo "$id APPLY-FAILED"; continue; }
-  out=$(./vcheck $prop --tier quick 2>&1); rc=$?
-  git -C /repo checkout -- .
-  sigs=$(echo "$out" | grep "signature=" | sed 's/.*signature=\([^:]*\):.*/\1/' | sort | uniq -c | sort -rn | head -4 | awk '{printf "%s(x%s) ", $2, $1}')
-  echo "$id -> $prop rc=$rc $sigs"
+  [ -n "$only" ] && [ "$only" != "all" ] && [ "$only" != "$id" ] && continue
+  git -C $WT apply $V/$d/patch.diff 2>/dev/null || { echo "$id APPLY-FAILED"; continue; }
+  for p in $prop "$@"; do
+    out=$(VERIF_REPO=$WT VERIF_WORK=/tmp/seedout.$$/work VERIF_EVIDENCE_DIR=/tmp/seedout.$$/ev VERIF_REPLAY_DIR=/tmp/seedout.$$/rp ./vcheck $p --tier $tier 2>&1); rc=$?
+    sigs=$(echo "$out" | grep "signature=" | sed 's/.*signature=\([^:]*\):.*/\1/' | sort | uniq -c | sort -rn | head -4 | awk '{printf "%s(x%s) ", $2, $1}')
+    echo "$id -> $p rc=$rc $sigs"
+  done
+  git -C $WT apply -R $V/$d/patch.diff
 done
